@@ -356,6 +356,14 @@ class Builder:
                 edits.append(Edit(te, te, [Seg(")", "unit", fn=qual)], order=-1))
         # ---- contract clauses before the body
         spec = []
+        # receiver-agnostic placeholders: OLD_SELF / FINAL_SELF follow the real signature's receiver
+        ps = m.index("(", a)
+        recv = rs.norm(m[ps + 1:rs.match_close(m, ps)]).split(",")[0].strip()
+        mut_recv = bool(re.match(r"&\s*(?:'\w+\s+)?mut\s+self$", recv))
+
+        def expand(t):
+            return t.replace("OLD_SELF", "(*old(self))" if mut_recv else "(*self)") \
+                    .replace("FINAL_SELF", "(*final(self))" if mut_recv else "(*self)")
         if c:
             def clause_block(kwd, clauses):
                 if not clauses:
@@ -363,7 +371,7 @@ class Builder:
                 spec.append(Seg("\n    %s\n" % kwd, "contract", file="contracts.vc", fn=qual))
                 for k, cl in enumerate(clauses):
                     cid = "%s#%s" % (kwd, cl.label or str(k))
-                    spec.append(Seg("        " + cl.text + ",\n", "contract", file="contracts.vc", line=cl.line,
+                    spec.append(Seg("        " + expand(cl.text) + ",\n", "contract", file="contracts.vc", line=cl.line,
                                     fn=qual, clause=cid))
                     fnrec["clauses"].append({"id": cid, "kind": kwd, "tags": cl.tags, "text": cl.text})
             clause_block("requires", c.requires)
